@@ -144,6 +144,12 @@ def runActs (pub : Pub) (w : W) : List Act → W × Option Exc
 def logFailure (pub : Pub) (ch : Chan) (w : W) : W × Option Exc :=
   if ch = .log then (w, none) else pub w .log
 
+/-- The whole `except Exception:` branch: log, then continue with `k` unless logging raised. -/
+def raised (pub : Pub) (ch : Chan) (w : W) (k : W → W × Option Exc) : W × Option Exc :=
+  match logFailure pub ch w with
+  | (w3, none) => k w3
+  | (w3, some e) => (w3, some e)
+
 /-- The `for priority, listener in items:` loop; `fails` = failures collected so far. -/
 def pubLoop (pub : Pub) (ch : Chan) : List Listener → W → List Nat → W × Option Exc
   | [], w, fails => (w, if fails.isEmpty then none else some (.chanFail fails))
@@ -163,10 +169,7 @@ def pubLoop (pub : Pub) (ch : Chan) : List Listener → W → List Nat → W × 
     | .inl .ok => pubLoop pub ch rest w2 fails
     | .inl .kbdInt => (w2, some .kbdInt)
     | .inl (.sysExit c) => (w2, some (.sysExit (fixCode fails c)))
-    | .inl .raise =>
-      match logFailure pub ch w2 with
-      | (w3, none) => pubLoop pub ch rest w3 (fails ++ [l.id])
-      | (w3, some e) => (w3, some e)
+    | .inl .raise => raised pub ch w2 (fun w3 => pubLoop pub ch rest w3 (fails ++ [l.id]))
 
 /-- `Bus.publish(channel)`.  Returns the new world and `none` (returned) or the exception.
     `fuel` bounds the re-entrancy depth (listener → publish → listener …). -/
